@@ -1,9 +1,13 @@
 package dawn
 
 import (
+	"crypto/rand"
+	"encoding/hex"
 	"fmt"
 	"sort"
+	"strconv"
 	"strings"
+	"time"
 
 	"github.com/pgavlin/dawn/diff"
 	"github.com/pgavlin/dawn/label"
@@ -38,13 +42,32 @@ type runTarget struct {
 	target  Target
 	changed bool
 	data    string
+	run     string
+}
+
+// stamp returns the value dependents record and compare for this target: its data plus, for targets that are
+// not content-addressed, the ID of the execution that produced it.
+func (t *runTarget) stamp() string {
+	if t.run == "" {
+		return t.data
+	}
+	return t.data + "@" + t.run
+}
+
+// newRunID returns a fresh execution ID.
+func newRunID() string {
+	var b [8]byte
+	if _, err := rand.Read(b[:]); err != nil {
+		return strconv.FormatInt(time.Now().UnixNano(), 16)
+	}
+	return hex.EncodeToString(b[:])
 }
 
 func (t *runTarget) Evaluate(engine runner.Engine) error {
 	proj, label, info := t.target.Project(), t.target.Label(), t.target.info()
 
 	// Copy the current version of the data.
-	t.data = info.Data
+	t.data, t.run = info.Data, info.Run
 
 	// Evaluate the target's dependencies.
 	depsUpToDate := true
@@ -64,7 +87,7 @@ func (t *runTarget) Evaluate(engine runner.Engine) error {
 
 		label := deps[i]
 
-		newData := dep.Target.(*runTarget).data
+		newData := dep.Target.(*runTarget).stamp()
 		depData[label] = newData
 
 		prevData, ok := info.Dependencies[label]
@@ -126,11 +149,17 @@ func (t *runTarget) Evaluate(engine runner.Engine) error {
 	t.changed = changed
 	if changed {
 		t.data = data
+		// A source file's data identifies its contents. Any other target's data does not change when the
+		// target executes again, so each execution gets its own ID.
+		if _, isSource := t.target.(*sourceFile); !isSource {
+			t.run = newRunID()
+		}
 	}
 	err = proj.saveTargetInfo(label, targetInfo{
 		Doc:          t.target.Doc(),
 		Dependencies: depData,
 		Data:         t.data,
+		Run:          t.run,
 	})
 	if err != nil {
 		proj.events.TargetFailed(label, err)
